@@ -124,13 +124,45 @@ class C14(Prop):
             out.append(c)
         return out
 
+    NOP = ['num', ['floor', Fraction(0)]]
+
     def model_case(self, c):
-        return sl.session_model_case(c)
+        s = sl.session_model_case(c)
+        return ('multi', [[s[0], s[1]], self.NOP])
+
+    def model_case2(self, c, impl):
+        # the allocation-table model (AllocTable.v) is fed the rows and equity dates the session itself recorded
+        s = sl.session_model_case(c)
+        t = self.NOP
+        if isinstance(impl, dict) and impl.get('init', [''])[0] == 'ok' and isinstance(impl.get('alloc_df'), list) \
+                and len(impl['alloc_df']) == 2 and impl['alloc_df'][0] != 'err' and impl.get('error') is None \
+                and all(fr(v) is not None for _, row in impl['allocs'] for _, v in row):
+            burn = c['cfg'].get('burn')
+            t = ['alloc_table', [[[int(tt), [[k, Fraction(v)] for k, v in row]] for tt, row in impl['allocs']],
+                                 [int(tt) // DAY for tt, _ in impl['equity']],
+                                 ([] if burn is None else [int(burn)])]]
+        return ('multi', [[s[0], s[1]], t])
 
     def judge(self, c, impl, mod):
         j = Judgement()
         j.key = hash(repr(c['cfg']))
+        mod, mtable = mod[0], mod[1]
         sl.compare_session(c, impl, mod, j)
+        if isinstance(mtable, list) and len(mtable) == 2 and isinstance(mtable[1], list) and isinstance(impl.get('alloc_df'), list) \
+                and len(impl['alloc_df']) == 2 and impl['alloc_df'][0] != 'err':
+            cols, table = impl['alloc_df']
+            mcols, mrows = mtable
+            if list(cols) != list(mcols):
+                j.disagreements.append('allocation table columns model=%s impl=%s' % (mcols, cols))
+            elif [d for d, _ in table] != [d for d, _ in mrows]:
+                j.disagreements.append('allocation table dates model=%s... impl=%s...' % ([d for d, _ in mrows][:4], [d for d, _ in table][:4]))
+            else:
+                for (d, row), (_, mrow) in zip(table, mrows):
+                    mw = dict((k, v) for k, v in mrow[0]) if mrow else {}
+                    want = [(float(mw[col]) if col in mw else 'nan') for col in cols]
+                    if [x if x == 'nan' else float(x) for x in row] != want:
+                        j.disagreements.append('allocation table row %d model=%s impl=%s' % (d, want, row))
+                        break
         c14_predicate(c, impl, j)
         j.tags.append(c['cfg']['alpha'][0])
         j.tags.append(c['cfg']['rebal'][0])
